@@ -194,6 +194,9 @@ func (e *c32Env) run(v []int) (sig, class string) {
 			continue
 		}
 		role := c32Role(p, dirs)
+		if role == "prefix-sibling" && wantTag[p] == gotTag[p] {
+			role = "outside" // the flag is right: whatever else is wrong is not the prefix trap
+		}
 		if wantFS[p] != gotFS[p] {
 			st := func(s string) string {
 				switch {
